@@ -74,7 +74,7 @@ Record build_info := {
   bi_modules : list str;            (* selection order (resolver) *)
   bi_build_order : list str }.      (* build order (info-export order) *)
 
-Inductive nobuild := NotAllowed | NotAncestor | Unresolved | BuildDepCycle.
+Inductive nobuild := NotAllowed | NotAncestor | Shadowed | Unresolved | BuildDepCycle.
 Inductive cfg_result := Built (info : build_info) (entries : list stmt) | NoBuild (why : nobuild).
 
 Definition rule_to_nrule (r : rule) : nrule :=               (* From<&Rule> for NinjaRuleBuilder *)
@@ -346,6 +346,14 @@ Section Gen.
                  fold_left (fun a m => fold_left (task_insert flat ms) (m_tasks m) a) ms acc1)
               (ctxs_of b (parents_root_first b builder)) (Ok []).
 
+  Definition opt_nat_eqb (a b : option nat) : bool :=
+    match a, b with Some x, Some y => Nat.eqb x y | None, None => true | _, _ => false end.
+  Definition shadowed (b : bag) (builder : nat) (binary : module) : bool :=
+    match resolve_module b builder (m_name binary) with
+    | Some seen => negb (opt_nat_eqb (m_context_id seen) (m_context_id binary))
+    | None => false
+    end.
+
   (* configure_build, generate.rs:345-1011 *)
   Definition configure_build (b : bag) (le : lazeenv) (builder : nat) (binary : module)
              (select : list dep) (disable : list str) (cli_env : option env) : res cfg_result :=
@@ -359,6 +367,9 @@ Section Gen.
       match anc with
       | None => Ok (NoBuild NotAncestor)
       | Some _ =>
+        (* the builder sees the definition of the app's name nearest to it: an app of that name further up
+           the chain is shadowed *)
+        if shadowed b builder binary then Ok (NoBuild Shadowed) else
         let disabled0 := fold_left (fun a x => iset_insert x a) disable (collect_disabled b builder) in
         match resolve_build b builder (c_name bctx) binary select disabled0 with
         | Err _ => Ok (NoBuild Unresolved)
